@@ -131,7 +131,7 @@ __CPROVER_loop_invariant(it.m == &self->monomials && it.pos <= self->monomials.s
 __CPROVER_loop_invariant((g_has == 0 || g_has == 1) && result1.has == g_has && (g_has ==> D_SAME_LV(result1.val, g_sum)))
 __CPROVER_decreases(self->monomials.size - it.pos)
 //@end
-//@harness h_Operator_actRight_ket enforce=Operator_actRight_ket props=C05 defs=-DVERIF_FP_IEEE,-DVERIF_FP_AXIOM reach=3 timeout=240
+//@harness h_Operator_actRight_ket enforce=Operator_actRight_ket props=C05 defs=-DVERIF_FP_IEEE,-DVERIF_FP_AXIOM reach=3 timeout=240 min_obl=352
 void h_Operator_actRight_ket(void)
 {
   struct Operator *o; Bitset ket;
@@ -155,7 +155,7 @@ __CPROVER_assigns(self->monomials.cur, g_has, g_sum, g_calls)
 __CPROVER_ensures(g_calls == self->monomials.size)
 __CPROVER_ensures(D_SAME(__CPROVER_return_value, (g_has && !SMALL_EPS(g_sum)) ? g_sum : 0.0))
 //@end
-//@harness h_Operator_getMatrixElement enforce=Operator_getMatrixElement replace=Operator_actRight_ket props=C05 defs=-DVERIF_FP_IEEE,-DVERIF_FP_AXIOM reach=3 timeout=120
+//@harness h_Operator_getMatrixElement enforce=Operator_getMatrixElement replace=Operator_actRight_ket props=C05 defs=-DVERIF_FP_IEEE,-DVERIF_FP_AXIOM reach=3 timeout=120 min_obl=139
 void h_Operator_getMatrixElement(void)
 {
   struct Operator *o; Bitset bra, ket;
@@ -183,7 +183,7 @@ __CPROVER_requires(__CPROVER_is_fresh(self, sizeof(*self)) && __CPROVER_is_fresh
 __CPROVER_assigns()
 __CPROVER_ensures(__CPROVER_return_value == OP_EQUAL(OP_PROD(self->id, rhs->id), OP_PROD(rhs->id, self->id)))
 //@end
-//@harness h_Operator_commutes enforce=Operator_commutes props=C05 reach=2 timeout=60
+//@harness h_Operator_commutes enforce=Operator_commutes props=C05 reach=2 timeout=60 min_obl=57
 void h_Operator_commutes(void)
 {
   struct Operator *a, *b;
@@ -194,8 +194,7 @@ void h_Operator_commutes(void)
 /* ---- OperatorPresets::N::actRight, Sz::actRight  (no header documentation; C05: "the specialised particle-number and S_z operators
  * act on every Fock state exactly like their generic polynomial forms").  Both operators are diagonal: the result has the single
  * entry ket -> getMatrixElement(ket) (value proved equal to the generic diagonal value in specs/operator.c; an ORACLE here).
- * CODE CONVENTION: the entry is stored even when the value is 0, whereas the generic Operator::actRight drops amplitudes below
- * epsilon -- see REMARK 1 and harness h_N_actRight_generic. */
+ * Like the generic Operator::actRight, no entry is stored for an amplitude below epsilon (defect D18, repaired: see REMARK 1). */
 //@record Pomerol::OperatorPresets::N => struct PresetN ptr
 //@record Pomerol::OperatorPresets::Sz => struct PresetSz ptr
 //@type std::vector<(Pomerol::)?ParticleIndex>|std::vector<unsigned int(, std::allocator<unsigned int> ?)?> => UVecOpaque ptr
@@ -208,7 +207,6 @@ double __CPROVER_uninterpreted_diag_value(unsigned long which, unsigned long w, 
 #define DIAG_SZ(k) __CPROVER_uninterpreted_diag_value(2UL, (k).w, (k).size)
 static inline double PresetN_getMatrixElement(struct PresetN *self, Bitset ket) { (void)self; REACH("value"); return DIAG_N(ket); }
 static inline double PresetSz_getMatrixElement(struct PresetSz *self, Bitset ket) { (void)self; REACH("value"); return DIAG_SZ(ket); }
-int g_generic;      /* 1: also demand the convention of the generic Operator::actRight (no entry for an amplitude below epsilon) */
 #define KET_IS_B (ket.w == g_B.w && ket.size == g_B.size)
 //@function Pomerol::OperatorPresets::N::actRight(boost::dynamic_bitset<unsigned long, std::allocator<unsigned long> > const&) const as N_actRight
 //@contract
@@ -217,22 +215,13 @@ __CPROVER_assigns()
 /* (g_B arbitrary) the only entry is the one of ket itself, with the diagonal value */
 __CPROVER_ensures(!KET_IS_B ==> !__CPROVER_return_value.has)
 __CPROVER_ensures(KET_IS_B ==> (__CPROVER_return_value.has ==> D_SAME(__CPROVER_return_value.val, DIAG_N(ket))))
-__CPROVER_ensures((KET_IS_B && !g_generic) ==> __CPROVER_return_value.has)
-__CPROVER_ensures((KET_IS_B && g_generic) ==> (__CPROVER_return_value.has == (SMALL_EPS(DIAG_N(ket)) ? 0 : 1)))
+/* C05 "exactly like their generic polynomial forms": Operator::actRight stores no entry for an amplitude below epsilon */
+__CPROVER_ensures(KET_IS_B ==> (__CPROVER_return_value.has == (SMALL_EPS(DIAG_N(ket)) ? 0 : 1)))
 //@end
-//@harness h_N_actRight enforce=N_actRight props=C05 reach=2 timeout=60
+//@harness h_N_actRight enforce=N_actRight props=C05 reach=2 timeout=60 min_obl=73
 void h_N_actRight(void)
 {
   struct PresetN *o; Bitset ket;
-  g_generic = 0;
-  MapFM r = N_actRight(o, ket);
-  REACH("exit");
-}
-//@harness h_N_actRight_generic enforce=N_actRight props=C05 reach=2 timeout=60
-void h_N_actRight_generic(void)
-{
-  struct PresetN *o; Bitset ket;
-  g_generic = 1;
   MapFM r = N_actRight(o, ket);
   REACH("exit");
 }
@@ -242,29 +231,20 @@ __CPROVER_requires(__CPROVER_is_fresh(self, sizeof(*self)) && Bitset_wf(ket))
 __CPROVER_assigns()
 __CPROVER_ensures(!KET_IS_B ==> !__CPROVER_return_value.has)
 __CPROVER_ensures(KET_IS_B ==> (__CPROVER_return_value.has ==> D_SAME(__CPROVER_return_value.val, DIAG_SZ(ket))))
-__CPROVER_ensures((KET_IS_B && !g_generic) ==> __CPROVER_return_value.has)
-__CPROVER_ensures((KET_IS_B && g_generic) ==> (__CPROVER_return_value.has == (SMALL_EPS(DIAG_SZ(ket)) ? 0 : 1)))
+/* C05 "exactly like their generic polynomial forms": Operator::actRight stores no entry for an amplitude below epsilon */
+__CPROVER_ensures(KET_IS_B ==> (__CPROVER_return_value.has == (SMALL_EPS(DIAG_SZ(ket)) ? 0 : 1)))
 //@end
-//@harness h_Sz_actRight enforce=Sz_actRight props=C05 reach=2 timeout=60
+//@harness h_Sz_actRight enforce=Sz_actRight props=C05 reach=2 timeout=60 min_obl=73
 void h_Sz_actRight(void)
 {
   struct PresetSz *o; Bitset ket;
-  g_generic = 0;
-  MapFM r = Sz_actRight(o, ket);
-  REACH("exit");
-}
-//@harness h_Sz_actRight_generic enforce=Sz_actRight props=C05 reach=2 timeout=60
-void h_Sz_actRight_generic(void)
-{
-  struct PresetSz *o; Bitset ket;
-  g_generic = 1;
   MapFM r = Sz_actRight(o, ket);
   REACH("exit");
 }
 
 /* ======================= REMARKS / FINDINGS =======================
- * 1. FINDING (h_N_actRight_generic, h_Sz_actRight_generic FAIL: N_actRight.postcondition.4, Sz_actRight.postcondition.4; reproduced natively):
- *    N::actRight and Sz::actRight always return the entry ket -> value, also when the value is 0, whereas the generic Operator::actRight
+ * 1. DEFECT D18 (found by this contract: N_actRight.postcondition.4, Sz_actRight.postcondition.4; reproduced natively; repaired in /repo by fix: d6754c7):
+ *    N::actRight and Sz::actRight always returned the entry ket -> value, also when the value is 0, whereas the generic Operator::actRight
  *    of the same polynomial drops amplitudes below epsilon:  N(2).actRight(|00>).size() == 1 but (n(0)+n(1)).actRight(|00>).size() == 0;
  *    Sz(2,{0}).actRight(|11>).size() == 1, generic 0.  C05 says the presets "act on every Fock state exactly like their generic polynomial
  *    forms".  No library code calls actRight on an N or Sz object (FieldOperator::mapsTo / FieldOperatorPart / HamiltonianPart call it on
